@@ -23,7 +23,7 @@ from typing import Dict, List, Optional, Tuple
 from oqv.astutil import call_name, method_call
 from oqv.cfg import CFG
 from oqv.dataflow import DefUse, origin, origin_text
-from oqv.model import AnalysisError, Program, Unit, dotted, norm, walk_local
+from oqv.model import AnalysisError, Program, Unit, dotted, norm, walk_local, kw_of
 from oqv.report import Check
 from rules.c05 import adjoint_base
 
@@ -129,13 +129,13 @@ def d1(prog: Program, chk: Check) -> None:
     cac = [c for c in walk_local(u.node) if isinstance(c, ast.Call) and _fn(c) == "cross_acommutator"]
     if len(clr) != 1 or len(cac) != 1:
         raise AnalysisError("D1: two-site dissipator construction not found")
-    kw = {k.arg: k.value for k in clr[0].keywords}
+    kw = kw_of(clr[0])
     nid = du.node_of(clr[0])
     ok1 = all(k in kw for k in ("operator_1_l", "operator_1_r", "operator_2_l", "operator_2_r")) and \
         _is_adjoint_of(du, nid, kw["operator_1_r"], kw["operator_1_l"]) and \
         _is_adjoint_of(du, nid, kw["operator_2_r"], kw["operator_2_l"]) and \
         origin_text(du, nid, kw["operator_1_l"]) != origin_text(du, nid, kw["operator_2_l"])
-    kw2 = {k.arg: k.value for k in cac[0].keywords}
+    kw2 = kw_of(cac[0])
     nid2 = du.node_of(cac[0])
     ok2 = ok1 and "operator_1" in kw2 and "operator_2" in kw2 and \
         _product_of_adjoint(du, nid2, kw2["operator_1"], kw["operator_1_l"]) and \
